@@ -206,6 +206,11 @@ struct Inner {
     /// existing suspension point of the node: a UDP send may be pending), so that the node's other
     /// task can run in the middle of whatever the sender was doing.
     send_yield_p: f64,
+    /// (probability, longest duration): a real socket's `send_to` returns only this long after the
+    /// datagram has left (a send that blocks under back-pressure, a sender thread descheduled right
+    /// after the system call). The datagram - and with short latencies even the answer to it - is
+    /// on its way while the sending task is still suspended in the send.
+    send_linger: (f64, Micros),
     tie: HashMap<SocketAddr, TieState>,
     t0: tokio::time::Instant,
     rng: ChaCha8Rng,
@@ -231,6 +236,7 @@ impl Net {
         Net(Arc::new(Mutex::new(Inner {
             observers: Vec::new(),
             send_yield_p: 0.0,
+            send_linger: (0.0, 0),
             tie: HashMap::new(),
             t0: tokio::time::Instant::now(),
             rng: ChaCha8Rng::seed_from_u64(seed ^ 0x6e65_7473_696d),
@@ -279,6 +285,24 @@ impl Net {
     /// Make `send_to` of real sockets yield with this probability (injected scheduling point).
     pub fn set_send_yield(&self, p: f64) {
         self.0.lock().unwrap().send_yield_p = p;
+    }
+
+    /// Make `send_to` of real sockets return late with probability `p`, by up to `max` (see
+    /// `Inner::send_linger`). Not for scenarios whose oracle predicts exact timer instants from the
+    /// send instants on the wire (the search beds).
+    pub fn set_send_linger(&self, p: f64, max: Micros) {
+        self.0.lock().unwrap().send_linger = (p, max);
+    }
+
+    fn linger_after_send(&self) -> Micros {
+        let mut guard = self.0.lock().unwrap();
+        let inner = &mut *guard;
+        let (p, max) = inner.send_linger;
+        if p > 0.0 && max > 0 && inner.rng.gen_bool(p.min(1.0)) {
+            inner.rng.gen_range(0..=max)
+        } else {
+            0
+        }
     }
 
     fn should_yield_on_send(&self) -> bool {
@@ -624,6 +648,10 @@ impl SocketTrait for SimSocket {
         let (ok, _) = self
             .net
             .send_impl(self.addr, *target, buf.to_vec(), true, None);
+        let linger = self.net.linger_after_send();
+        if linger > 0 {
+            tokio::time::sleep(Duration::from_micros(linger)).await;
+        }
         if ok {
             Ok(())
         } else {
